@@ -151,3 +151,17 @@ package validate
 //@   ensures access_step: ((n is ast.NodeTypeAccess) && r != types.String("")) ==> !hasSub(string(n.(ast.NodeTypeAccess).Value), ".")
 //@   ensures other: (!(n is ast.NodeTypeVariable) && !(n is ast.NodeTypeAccess)) ==> r == types.String("")
 //@ lemma C15 capability_names_unambiguous: forall a1 ast.NodeTypeAccess, a2 ast.NodeTypeAccess :: (exprVarName#0(ast.IsNode(a1)) != types.String("") && exprVarName#0(ast.IsNode(a1)) == exprVarName#0(ast.IsNode(a2))) ==> (a1.Value == a2.Value && exprVarName#0(a1.Arg) == exprVarName#0(a2.Arg))
+
+// `e1 == e2` on entities is typed False only if the two entity-type unions have no member in common
+// (C15: what the validator folds away as impossible really is). isDisjoint decides that by a merge of
+// the two sorted lists; entityLUB documents its elements as "sorted, unique".
+//@ spec func sortedET(xs []types.EntityType) bool = forall i int, j int :: (0 <= i && i < j && j < len(xs)) ==> strLess(string(xs[i]), string(xs[j]))
+//@ func (entityLUB) isDisjoint
+//@   props C15 C16
+//@   safety
+//@   requires sortedET(a.elements) && sortedET(b.elements)
+//@   results r
+//@   ensures exact: r == !(exists p int, q int :: 0 <= p && p < len(a.elements) && 0 <= q && q < len(b.elements) && a.elements[p] == b.elements[q])
+//@   loop 1
+//@     invariant 0 <= i && i <= len(a.elements) && 0 <= j && j <= len(b.elements)
+//@     invariant forall p int, q int :: (0 <= p && p < len(a.elements) && 0 <= q && q < len(b.elements) && (p < i || q < j)) ==> a.elements[p] != b.elements[q]
